@@ -52,9 +52,16 @@ def add_logging(rng, scn, p=0.35):
     data fields are redacted in the log, must not change any surface."""
     if scn["config"].get("transport", "asyncio") != "asyncio":
         return
-    for m in scn["machines"].values():
+    big = set()
+    for name, m in scn["machines"].items():
         if rng.random() < p:
             m["logging"] = json.loads(json.dumps(rng.choice(LOGGING)))
+            if rng.random() < 0.4:
+                big.add(name)
+    # some of them run on a payload of a few thousand characters (log lines are cut to size; the surfaces are not)
+    for ex in scn["executions"]:
+        if ex["machine"] in big and isinstance(ex.get("input"), dict) and "pad" not in ex["input"]:
+            ex["input"] = dict(ex["input"], pad="p" * rng.choice([2100, 4200, 9000]))
 
 
 def make_reused(i):
@@ -165,7 +172,146 @@ def make_rare(i):
     return seed, scn, kind
 
 
+def make_crash(i):
+    """One engine crash (and restart) in a corpus scenario on the Redis-backed store, where records and histories are
+    durable; half of the cases with the client's prefetch buffer modelled (fault 'prefetched-unhandled': messages
+    pushed to the dying consumer but not handled come back flagged redelivered)."""
+    from gen import corpus
+    seed = common.run_seed(9100000 + i)
+    rng = random.Random(seed)
+    names = [n for n in sorted(corpus.CORPUS) if not corpus.CORPUS[n].get("via")]
+    scn = corpus.scenario(rng.choice(names))
+    scn["config"] = dict(scn["config"], store="redis", execution_ttl=3600, crash_prefetch=rng.choice([0.0, 1.0]))
+    if rng.random() < 0.25:
+        for m in scn["machines"].values():
+            m["type"] = "EXPRESS"       # nothing about an EXPRESS execution is stored, before or after a restart
+    if rng.random() < 0.4:
+        # a second execution started a moment later: its start event can be waiting (pushed, unhandled) at the crash
+        if all(len(v) == 1 for v in scn["script"].values()):
+            ex = dict(scn["executions"][0], name="e2", at=rng.choice([0.0, 0.0, 0.3]))
+            scn["executions"].append(ex)
+    return seed, scn, rng
+
+
+def check_crash(scn, seed, point, downtime):
+    """Final-state rules after a crash: every status change of a finished execution was announced at least once
+    (duplicates after a crash are at-least-once redelivery, C04's note), and record, last notification and last
+    history event tell the same end."""
+    from checks import c04
+    res, state, mon = c04.run_crash(scn, seed, tuple(point), downtime)
+    findings = []
+    if state["crashed_at"] is None:
+        return res, state, findings
+    w = res.world
+    node = w.nodes[0]
+    ctx = "crash %s downtime %.1fs prefetch=%s" % (tuple(point), downtime, scn["config"].get("crash_prefetch"))
+    term = w.terminal_events()
+    for arn in sorted(set(res.exec_arns.values()) | set(mon.seq)):   # (a start call cut off by the crash has no answer)
+        if arn is None:
+            continue
+        seq = mon.seq.get(arn) or []
+        evs = term.get(arn) or []
+        if not evs:
+            continue        # (never-terminal after a crash is C04's rule)
+        last = evs[-1]["body"]["detail"]
+        if "RUNNING" not in seq:
+            findings.append({"property": PROP, "rule": "status-change-never-published", "witness": "RUNNING",
+                             "detail": "%s: %s ended %s but RUNNING was never published (notifications %s)" % (
+                                 ctx, arn, last["status"], seq)})
+        if node.dead or node.state_engine is None:
+            continue
+        mname = arn.split(":")[6]
+        if (scn["machines"].get(mname) or {}).get("type") == "EXPRESS":
+            d = w.describe(arn, node)
+            h = w.api_sync(node, "GetExecutionHistory", {"executionArn": arn})
+            if d["status"] == 200 or h["status"] == 200:
+                findings.append({"property": PROP, "rule": "express-stored", "witness": "after-restart",
+                                 "detail": "%s: %s (EXPRESS) has a stored record/history after the restart: Describe %s, "
+                                           "History %s" % (ctx, arn, d["status"], h["status"])})
+            continue
+        if res.sim.now - res.sim.epoch > scn["config"]["execution_ttl"] - 5:
+            # the run lasted until the execution deadline (an execution C04's recorded findings leave stuck ends there):
+            # the stored record and history expire with execution_ttl, their content is gone by design
+            continue
+        d = w.describe(arn, node)
+        if d["status"] != 200 or not isinstance(d["json"], dict):
+            findings.append({"property": PROP, "rule": "record-lost-after-restart", "witness": None,
+                             "detail": "%s: DescribeExecution(%s) -> %s %s" % (ctx, arn, d["status"], str(d["body"])[:150])})
+            continue
+        rec = d["json"]
+        if len(set(e["body"]["detail"]["status"] for e in evs)) == 1:
+            for k in ("status", "output", "input"):
+                if rec.get(k) != last.get(k):
+                    findings.append({"property": PROP, "rule": "record-differs-from-notification-after-restart", "witness": k,
+                                     "detail": "%s: %s %s: record %r, last notification %r" % (ctx, arn, k, rec.get(k), last.get(k))})
+            h = w.api_sync(node, "GetExecutionHistory", {"executionArn": arn})
+            hev = (h["json"] or {}).get("events") if h["status"] == 200 else None
+            if not hev:
+                findings.append({"property": PROP, "rule": "history-lost-after-restart", "witness": None,
+                                 "detail": "%s: GetExecutionHistory(%s) -> %s" % (ctx, arn, h["status"])})
+            else:
+                want = {"SUCCEEDED": "ExecutionSucceeded", "FAILED": "ExecutionFailed"}.get(last["status"])
+                types = [e.get("type") for e in hev]
+                if want and want not in types:
+                    findings.append({"property": PROP, "rule": "history-differs-from-record-after-restart", "witness": want,
+                                     "detail": "%s: %s ended %s but the history has no %s event (%s)" % (
+                                         ctx, arn, last["status"], want, types[-4:])})
+                if types[0] != "ExecutionStarted":
+                    findings.append({"property": PROP, "rule": "history-differs-from-record-after-restart",
+                                     "witness": "first-event", "detail": "%s: %s history starts with %s" % (ctx, arn, types[0])})
+    return res, state, findings
+
+
+def run_crash_item(i, extra):
+    from checks import c04
+    seed, scn, rng = make_crash(i)
+    ref, info = c04.reference(scn, seed)
+    starts = [rec for ex, rec in ref.start_calls if rec is not None]
+    total = {"evaluations": 0, "sim_seconds": 0.0, "steps": 0, "broker_ops": 0, "interleavings": [], "distinct": [],
+             "faults": {}, "probes": {}, "findings": [], "sample": None}
+    if not starts:
+        total["evaluations"] = 1
+        return total
+    start_step = starts[0]["step0"]
+    points = [("step", s) for s, idle, t in info["steps"] if s >= start_step]
+    nops = len([o for o in info["ops"] if o[0] >= start_step])
+    before = len(info["ops"]) - nops
+    points += [("op", j) for j in range(before + 1, before + nops + 1)]
+    # right after the steps in which the engine published its first events (the start event, then the first
+    # transition): those messages are in flight / pushed and unhandled when the process dies there
+    pubsteps = sorted(set(st for st, op in info["ops"] if op == "basic_publish" and st >= start_step))
+    early = [("step", st) for st in pubsteps[:3]]
+    points = early + rng.sample(points, min(len(points), 5 if extra["tier"] == "quick" else 12))
+    for p in points:
+        dt = rng.choice(c04.DOWNTIMES)
+        res, state, findings = check_crash(scn, seed, p, dt)
+        total["evaluations"] += 1
+        total["sim_seconds"] += res.sim.now - res.sim.epoch
+        total["steps"] += res.sim.steps
+        total["broker_ops"] += len(res.sim.broker.oplog)
+        if state["crashed_at"] is not None:
+            for k in ("crash", "restart", "prefetched-unhandled"):
+                if res.sim.stats.get(k):
+                    total["faults"][k] = total["faults"].get(k, 0) + res.sim.stats[k]
+            total["probes"]["crash-slice:" + ("idle" if state["idle"] else "mid-handling")] = \
+                total["probes"].get("crash-slice:" + ("idle" if state["idle"] else "mid-handling"), 0) + 1
+            total["distinct"].append(common.sha([scn["machines"], p, dt, scn["config"].get("crash_prefetch")]))
+            total["interleavings"].append(res.sim.order_hash.hexdigest()[:16])
+        seen = set((f["rule"], f.get("witness")) for f in total["findings"])
+        for f in findings:
+            if (f["rule"], f.get("witness")) in seen:
+                continue
+            f["seed"] = seed
+            f["scenario"] = scn
+            f["crash_point"] = list(p)
+            f["downtime"] = dt
+            total["findings"].append(f)
+    return total
+
+
 def run_one(item, extra):
+    if isinstance(item, tuple) and item[0] == "crash":
+        return run_crash_item(item[1], extra)
     if isinstance(item, tuple) and item[0] == "rare":
         seed, scn, kind = make_rare(item[1])
         r = check(scn, seed)
@@ -227,7 +373,11 @@ def main(argv):
     if len(argv) > 1 and argv[0] == "--replay":
         with open(argv[1]) as f:
             rec = json.load(f)
-        r = check(rec["scenario"], rec["seed"])
+        if rec.get("crash_point"):
+            res, state, fs = check_crash(rec["scenario"], rec["seed"], rec["crash_point"], rec["downtime"])
+            r = {"findings": fs}
+        else:
+            r = check(rec["scenario"], rec["seed"])
         same = [f for f in r["findings"] if f["rule"] == rec["rule"] and f.get("witness") == rec.get("witness")]
         print("replay %s: %s" % (argv[1], "REPRODUCED" if same else "not reproduced"))
         for f in same[:1]:
@@ -237,11 +387,13 @@ def main(argv):
     n = 1600 if tier == "quick" else 80000
     rep = common.Report(PROP)
     from checks import minimise as _MIN
-    rep.minimiser = lambda f: _MIN.scenario(f, lambda scn, seed: check(scn, seed))
+    rep.minimiser = lambda f: _MIN.scenario(f, lambda scn, seed: (
+        {"findings": check_crash(scn, seed, f["crash_point"], f["downtime"])[2]} if f.get("crash_point") else check(scn, seed)))
     items = list(range(n)) + [("rare", k) for k in range(260 if tier == "quick" else 13000)]
     items += [("reused", k) for k in range(120 if tier == "quick" else 6000)]
     items += [("child", k) for k in range(300 if tier == "quick" else 12000)]
     items += [("outlives", k) for k in range(250 if tier == "quick" else 10000)]
+    items += [("crash", k) for k in range(60 if tier == "quick" else 4000)]
     for r in common.run_batch("checks.c11", "run_one", items, {"tier": tier}):
         rep.absorb(r)
     return rep.finish(
